@@ -69,7 +69,7 @@ C14Cases ==
   {[tmpl |-> t, op |-> o, p |-> p, q |-> 0, seed |-> 0] : t \in Templates, o \in {"trunc", "flip20", "flip80", "flip01", "badutf8"}, p \in 0..8}
   \cup {[tmpl |-> t, op |-> "splice", p |-> p, q |-> q, seed |-> 0] : t \in Templates, p \in 0..7, q \in 1..8}
   \cup {[tmpl |-> t, op |-> o, p |-> 0, q |-> 0, seed |-> 0] : t \in Templates, o \in {"none", "dupelem", "hugeint", "wrongns", "deep", "big", "empty"}}
-  \cup {[tmpl |-> t, op |-> "leaftext", p |-> p, q |-> q, seed |-> 0] : t \in Templates, p \in 0..8, q \in 0..7}
+  \cup {[tmpl |-> t, op |-> "leaftext", p |-> p, q |-> q, seed |-> 0] : t \in Templates, p \in 0..8, q \in 0..18}
   (* well-formed replies that name a request nobody made *)
   \cup {[tmpl |-> t, op |-> o, p |-> 0, q |-> 0, seed |-> 0] : t \in Templates \ {"hello"}, o \in {"strayid-far", "strayid-next", "strayid-zero", "strayid-max"}}
   \cup {[tmpl |-> "hello", op |-> "query", p |-> 0, q |-> q, seed |-> 0] : q \in 0..10}
